@@ -84,6 +84,8 @@ def detect(name, props):
             results[prop] = {"exit": rc, "violations": len(viol), "first": msgs[:3], "wall_s": round(time.time() - t0, 1),
                              "detected": rc == 1 and bool(viol), "tier": os.environ.get("SEED_TIER", "quick"),
                              "verif_commit": sh(["git", "-C", VERIF, "rev-parse", "--short", "HEAD"])[1].strip()}
+            meta.setdefault("history", []).append({"property": prop, "verif_commit": results[prop]["verif_commit"], "detected": results[prop]["detected"],
+                                                   "exit": rc, "violations": len(viol)})
             print(f"{name} {prop}: exit {rc}, {len(viol)} VIOLATION lines, {results[prop]['wall_s']}s")
             for m in msgs[:3]:
                 print("   ", m[:260])
